@@ -37,6 +37,9 @@ def Inst.new (d : DefaultDS) (pathTrace : Bool) (tp : TimeProps) : Inst :=
 
 def setPort (ports : List Port) (k : Nat) (p : Port) : List Port := ports.set (k - 1) p
 
+/-- port number `k` (1-based; 0 is no port) -/
+def portAt (ports : List Port) (k : Nat) : Option Port := if k = 0 then none else ports[k - 1]?
+
 /-- `best_local_announce_message_for_bmca` -/
 def bestForBmca (p : Port) (lb : Option Best) : Option Best :=
   if p.cfg.masterOnly ∨ p.st = .faulty then none else lb
@@ -45,7 +48,7 @@ def bestForBmca (p : Port) (lb : Option Best) : Option Best :=
 def bmcaTakeBest : List Nat → List Port → List (Nat × Option Best) → List Port × List (Nat × Option Best)
   | [], ports, acc => (ports, acc)
   | k :: rest, ports, acc =>
-    match ports[k - 1]? with
+    match portAt ports k with
     | none => bmcaTakeBest rest ports acc
     | some p =>
       let (fml, b) := takeBest p.fml p.cfg.acceptable
@@ -58,7 +61,7 @@ def bmcaApply (ebest : Option Best) (lbs : List (Nat × Option Best)) :
     R (List Port × InstState × Obs × List (Nat × List Out))
   | [], ports, s, ev, pend => .ok (ports, s, ev, pend)
   | k :: rest, ports, s, ev, pend =>
-    match ports[k - 1]? with
+    match portAt ports k with
     | none => bmcaApply ebest lbs rest ports s ev pend
     | some p =>
       let erbest := (lbs.lookup k).getD none
@@ -74,7 +77,7 @@ def bmcaApply (ebest : Option Best) (lbs : List (Nat × Option Best)) :
 def bmcaAge (step : Int) : List Nat → List Port → R (List Port)
   | [], ports => .ok ports
   | k :: rest, ports =>
-    match ports[k - 1]? with
+    match portAt ports k with
     | none => bmcaAge step rest ports
     | some p => do
       let p ← p.stepAnnounceAge step
@@ -82,72 +85,73 @@ def bmcaAge (step : Int) : List Nat → List Port → R (List Port)
 
 /-- `PtpInstance::bmca(ports)` bracketed by `start_bmca` / `end_bmca` of every port.
 Observations: events during the run (tagged with the port), then every port's pending actions. -/
-def Inst.bmca (i : Inst) (order : List Nat) : R (Inst × Obs) := do
-  if i.st.dflt.numberPorts ≠ order.length then .error .assertDbg else
-  let step ← liftOv (durFromLogInterval i.logBmca)
-  let (ports, lbs) := bmcaTakeBest order i.ports []
+def Inst.bmcaWith (i : Inst) (order : List Nat) (step : Int) : R (Inst × Obs) :=
+  let tb := bmcaTakeBest order i.ports []
   let cands := order.filterMap (fun k =>
-    match ports[k - 1]? with
-    | some p => bestForBmca p ((lbs.lookup k).getD none)
+    match portAt tb.1 k with
+    | some p => bestForBmca p ((tb.2.lookup k).getD none)
     | none => none)
-  let ebest := findBest cands
-  let (ports, s, ev, pend) ← bmcaApply ebest lbs order ports i.st [] []
-  let ports ← bmcaAge step order ports
-  let pendObs := (List.range ports.length).flatMap (fun j => tag (j + 1) ((pend.lookup (j + 1)).getD []))
-  .ok ({ i with st := s, ports := ports }, ev ++ pendObs)
+  match bmcaApply (findBest cands) tb.2 order tb.1 i.st [] [] with
+  | .error e => .error e
+  | .ok (ports, s, ev, pend) =>
+    match bmcaAge step order ports with
+    | .error e => .error e
+    | .ok ports' =>
+      .ok ({ i with st := s, ports := ports' },
+           ev ++ (List.range ports'.length).flatMap (fun j => tag (j + 1) ((pend.lookup (j + 1)).getD [])))
+
+def Inst.bmca (i : Inst) (order : List Nat) : R (Inst × Obs) :=
+  if i.st.dflt.numberPorts ≠ order.length then .error .assertDbg
+  else orOv (durFromLogInterval i.logBmca) fun step => i.bmcaWith order step
+
+/-- run a port-level handler on port `k` (no such port: nothing happens) and store the result -/
+def Inst.withPort (i : Inst) (k : Nat) (f : Port → R (Port × InstState × List Out × Nat)) : R (Inst × Obs × Nat) :=
+  match portAt i.ports k with
+  | none => .ok (i, [], 0)
+  | some p =>
+    match f p with
+    | .error e => .error e
+    | .ok (p', s', o, q) => .ok ({ i with st := s', ports := setPort i.ports k p' }, tag k o, q)
+
+/-- the port-level handler a host call runs -/
+def Inst.portHandler (i : Inst) : Op → Option (Nat × (Port → R (Port × InstState × List Out × Nat)))
+  | .gen k data => some (k, fun p => (p.handleGeneralReceive i.st data).map fun r => (r.1, r.2.1, r.2.2, 0))
+  | .evt k data ts => some (k, fun p => (p.handleEventReceive i.st data ts).map fun r => (r.1, r.2.1, r.2.2, 0))
+  | .tmrAnnounce k loose q => some (k, fun p => (p.sendAnnounce i.st q loose).map fun r => (r.1, i.st, r.2.1, r.2.2.length))
+  | .tmr k .announce => some (k, fun p => (p.sendAnnounce i.st [] true).map fun r => (r.1, i.st, r.2.1, 0))
+  | .tmr k .sync => some (k, fun p => (p.sendSync i.st).map fun r => (r.1, i.st, r.2, 0))
+  | .tmr k .delay => some (k, fun p => (p.sendDelayRequest i.st).map fun r => (r.1, i.st, r.2, 0))
+  | .tmr k .receipt => some (k, fun p => .ok ((p.handleReceiptTimer i.st).1, i.st, (p.handleReceiptTimer i.st).2, 0))
+  | .txts k ctx ts => some (k, fun p => (p.handleSendTimestamp i.st ctx ts).map fun r => (r.1, i.st, r.2, 0))
+  | _ => none
+
+def Inst.withNewPort (i : Inst) (cfg : PortCfg) (p : Port) : Inst × Obs × Nat :=
+  ({ i with st := { i.st with dflt := { i.st.dflt with numberPorts := i.st.dflt.numberPorts + 1 } },
+            ports := i.ports ++ [p],
+            logBmca := if cfg.announceLog < i.logBmca then cfg.announceLog else i.logBmca },
+   tag (i.st.dflt.numberPorts + 1) [.reset .receipt .rand], 0)
+
+def Inst.addPort (i : Inst) (cfg : PortCfg) : R (Inst × Obs × Nat) :=
+  (Port.new cfg ⟨i.st.dflt.clockIdentity, i.st.dflt.numberPorts + 1⟩).map (i.withNewPort cfg)
+
+def Inst.setSlaveOnly (i : Inst) (b : Bool) : Inst := { i with st := { i.st with dflt := { i.st.dflt with slaveOnly := b } } }
+def Inst.setQuality (i : Inst) (q : ClockQuality) : Inst := { i with st := { i.st with dflt := { i.st.dflt with quality := q } } }
+
+/-- host calls that are not addressed to one existing port -/
+def Inst.other (i : Inst) : Op → R (Inst × Obs × Nat)
+  | .addPort cfg => i.addPort cfg
+  | .setSlaveOnly b => .ok (i.setSlaveOnly b, [], 0)
+  | .setQuality q => .ok (i.setQuality q, [], 0)
+  | .bmca order => (i.bmca order).map (fun r => (r.1, r.2, 0))
+  | .gen _ _ => .ok (i, [], 0)
+  | .evt _ _ _ => .ok (i, [], 0)
+  | .tmrAnnounce _ _ _ => .ok (i, [], 0)
+  | .tmr _ _ => .ok (i, [], 0)      -- filter update timer: the recording filter has nothing to do
+  | .txts _ _ _ => .ok (i, [], 0)
 
 def Inst.step (i : Inst) (op : Op) : R (Inst × Obs × Nat) :=
-  match op with
-  | .addPort cfg => do
-    let n := i.st.dflt.numberPorts + 1
-    let p ← Port.new cfg ⟨i.st.dflt.clockIdentity, n⟩
-    let lb := if cfg.announceLog < i.logBmca then cfg.announceLog else i.logBmca
-    .ok ({ i with st := { i.st with dflt := { i.st.dflt with numberPorts := n } }, ports := i.ports ++ [p], logBmca := lb },
-         tag n [.reset .receipt .rand], 0)
-  | .setSlaveOnly b => .ok ({ i with st := { i.st with dflt := { i.st.dflt with slaveOnly := b } } }, [], 0)
-  | .setQuality q => .ok ({ i with st := { i.st with dflt := { i.st.dflt with quality := q } } }, [], 0)
-  | .bmca order => (i.bmca order).map (fun (i, o) => (i, o, 0))
-  | .gen k data =>
-    match i.ports[k - 1]? with
-    | none => .ok (i, [], 0)
-    | some p => do
-      let (p, s, o) ← p.handleGeneralReceive i.st data
-      .ok ({ i with st := s, ports := setPort i.ports k p }, tag k o, 0)
-  | .evt k data ts =>
-    match i.ports[k - 1]? with
-    | none => .ok (i, [], 0)
-    | some p => do
-      let (p, s, o) ← p.handleEventReceive i.st data ts
-      .ok ({ i with st := s, ports := setPort i.ports k p }, tag k o, 0)
-  | .tmrAnnounce k loose q =>
-    match i.ports[k - 1]? with
-    | none => .ok (i, [], 0)
-    | some p => do
-      let (p, o, q') ← p.sendAnnounce i.st q loose
-      .ok ({ i with ports := setPort i.ports k p }, tag k o, q'.length)
-  | .tmr k t =>
-    match i.ports[k - 1]? with
-    | none => .ok (i, [], 0)
-    | some p =>
-      match t with
-      | .announce => do
-        let (p, o, _) ← p.sendAnnounce i.st [] true
-        .ok ({ i with ports := setPort i.ports k p }, tag k o, 0)
-      | .sync => do
-        let (p, o) ← p.sendSync i.st
-        .ok ({ i with ports := setPort i.ports k p }, tag k o, 0)
-      | .delay => do
-        let (p, o) ← p.sendDelayRequest i.st
-        .ok ({ i with ports := setPort i.ports k p }, tag k o, 0)
-      | .receipt =>
-        let (p, o) := p.handleReceiptTimer i.st
-        .ok ({ i with ports := setPort i.ports k p }, tag k o, 0)
-      | .filter => .ok (i, [], 0)
-  | .txts k ctx ts =>
-    match i.ports[k - 1]? with
-    | none => .ok (i, [], 0)
-    | some p => do
-      let (p, o) ← p.handleSendTimestamp i.st ctx ts
-      .ok ({ i with ports := setPort i.ports k p }, tag k o, 0)
+  match i.portHandler op with
+  | some (k, f) => i.withPort k f
+  | none => i.other op
 
 end Statime
